@@ -52,8 +52,10 @@ impl Clone for NRDRelativeHeight { #[verifier::external_body] fn clone(&self) ->
 impl Copy for NRDRelativeHeight {}
 impl NRDRelativeHeight {
     #[verifier::external_body]
-    pub fn new(height: u64) -> (r: Result<NRDRelativeHeight, transaction::Error>) { unimplemented!() }
+    pub fn new(height: u64) -> (r: Result<NRDRelativeHeight, transaction::Error>)
+        ensures r matches Ok(v) ==> v == spec_nrd(height) { unimplemented!() }
 }
+pub uninterp spec fn spec_nrd(height: u64) -> NRDRelativeHeight;
 pub enum Weighting { AsTransaction, AsLimitedTransaction(u64), AsBlock, NoLimit }
 // ghost views of a transaction: its kernels and the numbers of inputs / outputs, its total fee
 pub uninterp spec fn tx_kernels(t: Transaction) -> Seq<TxKernelFull>;
@@ -62,6 +64,7 @@ pub uninterp spec fn tx_num_outputs(t: Transaction) -> nat;
 pub uninterp spec fn tx_fee_total(t: Transaction) -> u64;
 pub uninterp spec fn kernel_verifies(k: TxKernelFull) -> bool;         // kernel signature valid for its excess and message
 pub uninterp spec fn tx_valid(t: Transaction) -> bool;                 // Transaction::validate(Weighting::AsTransaction)
+pub uninterp spec fn spec_kernels_fee(k: Seq<TxKernelFull>) -> u64;
 pub uninterp spec fn spec_replace_kernel(t: Transaction, k: TxKernelFull) -> Transaction;
 #[verifier::external_body]
 pub proof fn axiom_replace_kernel(t: Transaction, k: TxKernelFull)
@@ -80,7 +83,10 @@ impl Transaction {
     #[verifier::external_body]
     pub fn fee(&self) -> (r: u64) ensures r == tx_fee_total(*self) { unimplemented!() }
     #[verifier::external_body]
-    pub fn replace_kernel(self, k: TxKernelFull) -> (r: Transaction) ensures r == spec_replace_kernel(self, k) { unimplemented!() }
+    pub fn replace_kernel(self, k: TxKernelFull) -> (r: Transaction)
+        ensures r == spec_replace_kernel(self, k), tx_kernels(r) == seq![k], tx_num_inputs(r) == tx_num_inputs(self),
+            tx_num_outputs(r) == tx_num_outputs(self), tx_parts(r) == tx_parts(self), tx_fee_total(r) == spec_kernels_fee(seq![k])
+    { unimplemented!() }
     #[verifier::external_body]
     pub fn validate(&self, w: Weighting) -> (r: Result<(), transaction::Error>) ensures (r is Ok) == tx_valid(*self) { unimplemented!() }
 }
